@@ -84,19 +84,22 @@ impl Publish {
 
     #[inline]
     pub fn ack(self) -> ProtocolMessageAck {
-        if let Some(id) = self.0.packet_id {
-            ProtocolMessageAck { result: ProtocolMessageKind::PublishAck(id) }
-        } else {
-            ProtocolMessageAck { result: ProtocolMessageKind::Nothing }
-        }
+        ProtocolMessageAck { result: self.ack_kind() }
     }
 
     #[inline]
     pub fn into_inner(self) -> (ProtocolMessageAck, codec::Publish) {
-        if let Some(id) = self.0.packet_id {
-            (ProtocolMessageAck { result: ProtocolMessageKind::PublishAck(id) }, self.0)
-        } else {
-            (ProtocolMessageAck { result: ProtocolMessageKind::Nothing }, self.0)
+        (ProtocolMessageAck { result: self.ack_kind() }, self.0)
+    }
+
+    fn ack_kind(&self) -> ProtocolMessageKind {
+        match self.0.packet_id {
+            // QoS 2 is answered with PUBREC, the id is released by PUBREL
+            Some(id) if self.0.qos == codec::QoS::ExactlyOnce => {
+                ProtocolMessageKind::PublishReceived(id)
+            }
+            Some(id) => ProtocolMessageKind::PublishAck(id),
+            None => ProtocolMessageKind::Nothing,
         }
     }
 }
